@@ -18,6 +18,7 @@ from __future__ import annotations
 import copy
 import json
 import random
+import re
 import signal
 import warnings
 import zlib
@@ -236,6 +237,10 @@ def dom_faults(rng, root, model, salt, exhaustive=True):
             yield f"text-between-children:{idx}", (lambda e=e: e.items.insert(1 if len(e.items) > 1 else 0, "stray text")), (lambda e=e: e.items.remove("stray text"))
 
 
+ENCODINGS = ["shift_jis", "euc-jp", "gb2312", "big5", "euc-kr", "gbk", "iso-2022-jp", "idna", "punycode", "undefined", "utf-7", "rot13", "hex", "base64", "unknown-xyz", "utf-32", "utf-16", "cp037", "cp1252", "latin-1",
+             "ascii", "mbcs", "raw_unicode_escape", "unicode_escape", "utf-8-sig", "UTF8", "x", "", "utf-8 ", "koi8-r", "cp65001", "tis-620"]
+
+
 def all_elements(e):
     yield e
     for x in e.items:
@@ -291,6 +296,11 @@ def check_xml(ctx, model, style, loaded, obj, seed, max_len):
         data = data.replace(b"xmlns:xsfault=", b"xmlns:xsfault=")  # (declared through a plain attribute named xmlns:xsfault)
         ctx.feature(f"fault:{label.split(':')[0]}")
         judge_xml(ctx, data, clazz, label, w0, original)
+    # 4b. an encoding declaration the bytes do not honour / the parser back end cannot decode
+    body = re.sub(rb"^\s*<\?xml[^>]*\?>", b"", original)
+    for enc in rng.sample(ENCODINGS, 4):
+        ctx.feature("fault:declared-encoding")
+        judge_xml(ctx, b'<?xml version="1.0" encoding="' + enc.encode("ascii", "replace") + b'"?>' + body, clazz, f"declared-encoding:{enc}", w0, original)
     # 5. undeclared prefix / wrong root / wrong class
     judge_xml(ctx, original.replace(b"<", b"<undeclared:", 1).replace(b"</", b"</undeclared:", 1) if original.count(b"<") else original, clazz, "undeclared-prefix:root", w0, original)
     other = [c for c in loaded.ns.values() if isinstance(c, type) and hasattr(c, "__dataclass_fields__") and c is not clazz and c.__module__ == clazz.__module__]
@@ -340,6 +350,8 @@ def judge_json(ctx, payload, clazz, fault, w0, via):
         ctx.violation(f"leaks/{type(val).__name__}/{fault.split(':')[0]}/{via}/{bc.short_exc(val)[:90]}", f"{type(val).__name__}: {val}\nfault={fault}\n{str(key)[:1200]}", w)
     elif st == "ok" and clazz is None:
         ctx.feature("json:class-located-by-keys")
+    elif st == "ok" and type(val).__name__ == "DerivedElement" and isinstance(getattr(val, "value", None), clazz):
+        ctx.feature("result:DerivedElement-wrapping-the-requested-class")  # (same documented wrapper as on the XML side)
     elif st == "ok":
         want = clazz
         if isinstance(val, list):
@@ -415,6 +427,31 @@ def check_json(ctx, model, style, loaded, obj, seed):
             judge_json(ctx, root if via == "dict" else json.dumps(root).encode(), None, "no-class-root", w0, via)
 
 
+def check_json_generic_shapes(ctx, seed):
+    """Directed: documents that spell generic / derived elements, every value swapped for every other JSON type."""
+    from vf.props import c15_models as M
+
+    rng = random.Random(seed)
+    w0 = {"fn": "json-generic", "seed": seed}
+    swaps = [None, 5, "str", True, [], {}, [[1]], {"x": {"y": 1}}, [None], 1.5, ["Leaf"], {"qname": "z"}, 0, ""]
+    for doc in M.DOCS:
+        for clazz in (M.Holder, None):
+            for via in ("dict", "json"):
+                ctx.feature("fault:json-generic-shapes")
+                judge_json(ctx, copy.deepcopy(doc) if via == "dict" else json.dumps(doc).encode(), clazz, "generic-clean", w0, via)
+        for path, node in list(json_nodes(doc)):
+            if not path:
+                continue
+            for sv in swaps:
+                if type(sv) is type(node) and sv == node:
+                    continue
+                d = copy.deepcopy(doc)
+                set_path(d, path, sv)
+                clazz = rng.choice([M.Holder, M.Holder, None])
+                for via in ("dict", "json"):
+                    judge_json(ctx, d if via == "dict" else json.dumps(d).encode(), clazz, f"generic-type-swap:{'/'.join(map(str, path))}", w0, via)
+
+
 def check_random_bytes(ctx, seed, clazz_case):
     rng = random.Random(seed)
     model, style, loaded, obj = clazz_case
@@ -456,6 +493,8 @@ def replay(witness, ctx):
 def run_shard(ctx):
     install_hooks(ctx)
     rng = ctx.rng
+    if ctx.shard == 0:
+        check_json_generic_shapes(ctx, ctx.seed)
     n_models = ctx.per_shard(ctx.pick(450, 9000))
     min_d = MIN_DISTINCT[ctx.tier] // ctx.nshards + 1
     max_len = ctx.pick(700, 4096)
